@@ -124,6 +124,8 @@ def make_interp(ctx, registry, exclude=None, inline=None, models=None):
             return None
         return registry.lookup(fn)
     it = Interp(ctx, summaries=summaries, models=m, inline=inline)
+    from . import loops
+    loops.install(it)
     return it
 
 
